@@ -136,6 +136,17 @@ Proof.
       * cbn [stack_ok fst]. split; auto. split; auto. eapply sub_agrees; eauto. cbn.
         destruct (holder c) as [u|]; cbn; auto. destruct (Nat.eqb_spec u t); cbn; auto.
         apply Nat.eqb_neq; auto.
+    + (* Gain *)
+      destruct (pick succs k) as [n'|] eqn:Hp; [|exact I]. destruct (SUCC _ eq_refl) as [Fv Sb].
+      cbn in Ep. inversion Ep; subst p.
+      destruct (holder c) as [u|] eqn:Eh.
+      * destruct (Nat.eqb_spec u t) as [Hu|Nu]; [|exact I]. subst u.
+        apply others_keep; auto.
+        -- intros t' N. rewrite Eh. reflexivity.
+        -- cbn [stack_ok fst]. split; auto. split; auto. eapply sub_agrees; eauto. cbn. apply Nat.eqb_refl.
+      * apply others_keep; auto.
+        -- intros t' N. rewrite Eh. cbn. destruct (Nat.eqb_spec t t'); congruence.
+        -- cbn [stack_ok fst]. split; auto. split; auto. eapply sub_agrees; eauto. cbn. apply Nat.eqb_refl.
     + (* Rd *)
       destruct (pick succs k) as [n'|] eqn:Hp; [|exact I]. destruct (SUCC _ eq_refl) as [Fv Sb].
       cbn in Ep. destruct (annot_at m (snd f)); try discriminate. inversion Ep; subst p.
